@@ -22,7 +22,7 @@ COMPONENTS = {"real": ["pyjelly frame iterator, Decoder living across frames, fl
                        "shared Stream, Graphs/DatasetsFrameFlow"],
               "stub": ["reframe fault (simkit.wire row slicing: rows are never re-encoded)", "oracle: simkit.refdec"]}
 ASSUMPTIONS = ["frames produced for empty inputs are not judged", "rdflib sinks compared as sets"]
-PROBES = ["reframe_runs", "grouped_write_runs", "empty_frames_inserted", "metadata_frames", "leading_empty_frame",
+PROBES = ["big_group_runs", "reframe_runs", "grouped_write_runs", "empty_frames_inserted", "metadata_frames", "leading_empty_frame",
           "single_row_frames", "rdflib_runs", "empty_inputs", "physical_GRAPHS"]
 SHRINK_LISTS = ["ops", "items"]
 
@@ -49,18 +49,26 @@ def generate(rng, run, tier):
     integration = rng.choice(["generic", "generic", "rdflib"])
     physical = rng.choice(["TRIPLES", "QUADS", "GRAPHS"])
     stmts, flags, sizes, _ = c01.gen_workload(rng, physical, rdflib_safe=integration == "rdflib", max_n=24)
+    big = rng.random() < 0.04
+    if big:
+        # one input large enough to exceed the default row bound of flat streams (250 rows) several times
+        reps = []
+        for i in range(rng.choice([12, 30])):
+            for st in stmts:
+                reps.append((("iri", f"http://big.example/s{i}/{len(reps)}"), *st[1:]))
+        stmts = reps[:700]
     mp, mn, md = c01.fit_tables(rng, stmts, [], sizes, physical)
     if md == 0 and W.has_datatypes(stmts):
         md = max(1, W.max_needs(stmts)[2])
     logical = rng.choice([3, 13]) if physical == "TRIPLES" else rng.choice([4, 14, 114])
-    groups = c01.split_groups(rng, len(stmts))
+    groups = c01.split_groups(rng, len(stmts)) if not big else [len(stmts) - len(stmts) // 3, len(stmts) // 3]
     if rng.random() < 0.3 and len(groups) > 1:
         groups.insert(rng.randint(1, len(groups)), 0)     # an empty input in the middle / at the end
     entry = "grouped_file" if physical != "GRAPHS" else "shared_stream"
     if rng.random() < 0.3:
         entry = "shared_stream"
     cfg = nodes.default_cfg(integration=integration, physical=physical, logical=logical, delimited=True,
-                            frame_size=rng.choice([1, 3, 250]), max_names=mn, max_prefixes=mp, max_datatypes=md,
+                            frame_size=250 if big else rng.choice([1, 3, 250]), max_names=mn, max_prefixes=mp, max_datatypes=md,
                             generalized=flags["generalized"], rdf_star=flags["rdf_star"], entry=entry)
     cfg["groups"] = groups
     return {"kind": "grouped_write", "cfg": cfg, "integration": integration,
@@ -171,6 +179,8 @@ def reframe_side(plan, sim):
 def grouped_write_side(plan, sim):
     sim.count("grouped_write_runs")
     cfg = plan["cfg"]
+    if len(plan["ops"]) >= 250:
+        sim.count("big_group_runs")
     integration = plan["integration"]
     if integration == "rdflib":
         sim.count("rdflib_runs")
